@@ -131,8 +131,10 @@ def r2_r3_step(ctx, E):
     # issued at is the current position S, the other the end En (whatever the state's shape: a Range in a tuple, a struct ..)
     _ROLES.clear()
     for o in outs:
-        eqs0 = [t for t, val in o.cons.known.items() if isinstance(t, tuple) and t[0] == "binop" and t[1] == "Eq" and
-                all(isinstance(x, tuple) and x[0] == "field" and TY.get(x, (64, False))[0] == 64 for x in (t[2], t[3]))]
+        # (`start == end` or `start != end`; the two components are state atoms - fields of the state parameter, or the
+        # separately captured `left.start` / `left.end` of an `async move` block)
+        eqs0 = [t for t, val in o.cons.known.items() if isinstance(t, tuple) and t[0] == "binop" and t[1] in ("Eq", "Ne") and
+                all(isinstance(x, tuple) and x[0] in ("field", "deref", "payload") and TY.get(x, (64, False))[0] == 64 for x in (t[2], t[3]))]
         pre0 = [e for e in o.events if e["k"] == "call" and e["callee"].get("path") == "libc::pread"]
         if eqs0 and pre0:
             a, b = eqs0[0][2], eqs0[0][3]
@@ -161,7 +163,7 @@ def r2_r3_step(ctx, E):
             continue
         opt = agg_get(v, "0")
         # the (start, end) of the current state
-        eqs = [(t, val) for t, val in o.cons.known.items() if isinstance(t, tuple) and t[0] == "binop" and t[1] == "Eq" and
+        eqs = [(t, val if t[1] == "Eq" else 1 - val) for t, val in o.cons.known.items() if isinstance(t, tuple) and t[0] == "binop" and t[1] in ("Eq", "Ne") and
                _ROLES and {t[2], t[3]} == {_ROLES["S"], _ROLES["En"]}]
         if not eqs:
             ctx.violation("C18.R2", "C18.R2|no-empty-test", "the unfold step does not compare start with end")
